@@ -152,7 +152,11 @@ Step(e) ==
             ELSE IF IsPanic(r.res) THEN /\ out' = Drift(e, "specification-predicts-panic", r.res) /\ skip' = TRUE /\ UNCHANGED <<es, pend>>
             ELSE IF "result" \in DOMAIN e /\ r.res # e.result THEN
                 /\ out' = Drift(e, "result", ToString(<<r.res, e.result>>)) /\ skip' = TRUE /\ UNCHANGED <<es, pend>>
-            ELSE /\ es' = r.s /\ pend' = Pred(r.evs) /\ out' = [out EXCEPT !.calls = @ + 1] /\ UNCHANGED skip
+            ELSE /\ es' = r.s /\ pend' = Pred(r.evs) /\ UNCHANGED skip
+                 /\ out' = [out EXCEPT !.calls = @ + 1,
+                                       !.wit = @ \cup {<<e.ev, w>> : w \in (IF e.ev \in {"Close", "Rx", "Reset"} THEN StateWitnesses(es) ELSE {})}
+                                                \cup {<<e.ev, r.res>>}
+                                                \cup (IF e.ev = "Rx" THEN {<<"Rx", e.type, r.res>>} ELSE {})]
     ELSE IF e.ev = "Complete" \/ (e.ev = "Tx" /\ e.partial = 0) THEN
         IF \E i \in 1..Len(pend) : pend[i] = Seen(e) THEN /\ pend' = RemoveFirst(pend, Seen(e)) /\ UNCHANGED <<es, skip, out>>
         ELSE /\ out' = Drift(e, "observed-not-predicted", ToString(Seen(e))) /\ skip' = TRUE /\ UNCHANGED <<es, pend>>
@@ -160,7 +164,7 @@ Step(e) ==
         LET mm == Mismatch(es, e) IN
         IF mm # {} THEN /\ out' = Drift(e, "state", ToString(mm)) /\ skip' = TRUE /\ UNCHANGED <<es, pend>>
         ELSE LET bi == BrokenInvariants(es) IN
-             /\ out' = [out EXCEPT !.states = @ + 1,
+             /\ out' = [out EXCEPT !.states = @ + 1, !.wit = @ \cup {<<"St", w>> : w \in StateWitnesses(es)},
                                    !.inv = IF bi = {} THEN @ ELSE Append(@, [run |-> e.run, seq |-> e.seq, broken |-> bi])]
              /\ skip' = (bi # {})
              /\ UNCHANGED <<es, pend>>
@@ -171,7 +175,7 @@ Init == /\ l = 1
         /\ es = InitState([policy |-> "All", drain |-> "None", retries |-> None, ver |-> 5, pingTmo |-> 0, ka |-> 0, rejoin |-> "PostSuccess",
                            resolver |-> "null", lruMax |-> 0, cid |-> "", tamIn |-> 0, sei |-> 0, connectUnits |-> 1])
         /\ pend = <<>> /\ skip = TRUE
-        /\ out = [drift |-> <<>>, inv |-> <<>>, calls |-> 0, states |-> 0, runs |-> 0]
+        /\ out = [drift |-> <<>>, inv |-> <<>>, calls |-> 0, states |-> 0, runs |-> 0, wit |-> {}]
 
 Next == /\ l <= Len(Rec)
         /\ l' = l + 1
@@ -180,6 +184,6 @@ Next == /\ l <= Len(Rec)
 Spec == Init /\ [][Next]_vars
 
 Verdict == l = Len(Rec) + 1 => PrintT(<<"VERDICT", ToJson([events |-> Len(Rec), runs |-> out.runs, calls |-> out.calls, states |-> out.states,
-                                                              drift |-> out.drift, inv |-> out.inv])>>)
+                                                              drift |-> out.drift, inv |-> out.inv, wit |-> out.wit])>>)
 Consumed == TLCGet("stats").diameter = Len(Rec) + 1
 =============================================================================
